@@ -1,5 +1,8 @@
 #![allow(dead_code, unused_imports)]
 //! Correspondence harness for the Lean model of image-png (see /verif/DESIGN.md, section 5).
+mod canon;
+mod corpus;
+mod iowrap;
 mod json;
 mod model;
 mod props;
